@@ -25,7 +25,7 @@ def unraw(ident):
 
 def blank_node(c):
     return {"c": c, "name": "", "kids": [], "arity": 0, "fields": [], "variants": [], "tag": "", "rename_all": "", "deny": "",
-            "validate": False, "error": "", "cfrom": "", "cfn": "", "cref": False}
+            "validate": False, "error": "", "cfrom": "", "cfn": "", "cref": False, "vfn": "", "denyfn": ""}
 
 
 def optstr(s):
@@ -56,7 +56,7 @@ class Gen:
             info = self.expand_def(d)
             nid = self.new_node(info["c"])
             n = self.nodes[nid - 1]
-            for key in ("name", "fields", "variants", "tag", "rename_all", "deny", "validate", "error", "cfrom", "cfn", "cref", "kids"):
+            for key in ("name", "fields", "variants", "tag", "rename_all", "deny", "validate", "error", "cfrom", "cfn", "cref", "kids", "vfn", "denyfn"):
                 n[key] = info[key]
             self.rust_ty[nid] = "P<%d, %s>" % (nid, d["name"])
             return nid
@@ -104,15 +104,20 @@ class Gen:
         for f in fields:
             fr = f.get("from")
             kid = self.occ(fr["ty"] if fr else f["ty"])
+            wrapped = bool(fr)
             dflt, dval = "none", C.rv("unit")
             if f["default"] == "trait" or (f["skip"] and f["default"] is None):
-                dflt, dval = "trait", self.default_rv(f["ty"])
+                dflt = "trait"
+                dval = C.rv("wrap", name="w%d" % kid, e=[self.default_rv(fr["ty"])]) if wrapped else self.default_rv(f["ty"])
             elif f["default"] is not None:
-                dflt, dval = "expr", f["default"][2]
+                dflt = "expr"
+                dval = C.rv("wrap", name="w%d" % kid, e=[f["default"][2]]) if wrapped else f["default"][2]
+            rust_field_ty = ("W<%d, %s>" % (kid, self.rust_ty[kid])) if wrapped else self.rust_ty[kid]
             out.append({"ident": unraw(f["ident"]), "src_ident": f["ident"], "node": kid, "rename": optstr(f["rename"]),
-                        "dflt": dflt, "dval": dval, "skip": f["skip"], "mapfn": "", "frm": fr["kind"] if fr else "none",
-                        "fromref": bool(fr and fr.get("ref")), "fn": "", "missfn": "", "ety": "F" if f["error"] else "E",
-                        "decl_ty": f["ty"]})
+                        "dflt": dflt, "dval": dval, "skip": f["skip"], "mapfn": ("m_%d" % kid) if f["map"] else "",
+                        "frm": fr["kind"] if fr else "none", "fromref": bool(fr and fr.get("ref")), "fn": ("f_%d" % kid) if fr else "",
+                        "missfn": ("mf_%d" % kid) if f["missing_fn"] else "", "ety": "F" if f["error"] else "E",
+                        "decl_ty": f["ty"], "rust_field_ty": rust_field_ty, "wrapped": wrapped})
         return out
 
     def default_rv(self, ty):
@@ -142,8 +147,16 @@ class Gen:
         if d["name"] in self.def_info:
             return self.def_info[d["name"]]
         info = {"name": d["name"], "fields": [], "variants": [], "tag": "", "rename_all": d["rename_all"] or "", "deny": d["deny"] or "",
-                "validate": bool(d["validate"]), "error": d["error"] or "", "cfrom": "", "cfn": "", "cref": False, "kids": []}
-        if d["kind"] == "struct":
+                "validate": bool(d["validate"]), "error": d["error"] or "", "cfrom": "", "cfn": "", "cref": False, "kids": [],
+                "vfn": ("v_%s" % d["name"]) if d["validate"] else "", "denyfn": ("df_%s" % d["name"]) if d["deny"] == "fn" else ""}
+        if d["kind"] == "struct" and d.get("cfrom"):
+            info["c"] = "cfrom"
+            kid = self.occ(d["cfrom"]["ty"])
+            info["kids"] = [kid]
+            info["cfrom"] = d["cfrom"]["kind"]
+            info["cfn"] = "cf_%s" % d["name"]
+            info["cref"] = bool(d["cfrom"].get("ref"))
+        elif d["kind"] == "struct":
             info["c"] = "struct"
             info["fields"] = self.expand_fields(d, d["fields"])
         else:
@@ -164,14 +177,100 @@ class Gen:
         a = []
         if src["rename"] is not None: a.append('rename = "%s"' % src["rename"])
         if src["default"] == "trait": a.append("default")
-        elif src["default"] is not None: a.append("default = P(%s)" % src["default"][1])
+        elif src["default"] is not None:
+            a.append(("default = W(P(%s))" if f["wrapped"] else "default = P(%s)") % src["default"][1])
         if src["skip"]: a.append("skip")
+        if f["frm"] == "from": a.append("from(%s%s) = %s" % ("&" if f["fromref"] else "", self.rust_ty[f["node"]], f["fn"]))
+        if f["frm"] == "try": a.append("try_from(%s%s) = %s -> FnErr" % ("&" if f["fromref"] else "", self.rust_ty[f["node"]], f["fn"]))
+        if f["mapfn"]: a.append("map = %s" % f["mapfn"])
+        if f["missfn"]: a.append("missing_field_error = %s" % f["missfn"])
+        if src["error"]: a.append("error = %s" % src["error"])
         return ("#[deserr(%s)] " % ", ".join(a)) if a else ""
+
+    def emit_fns(self, name):
+        """user functions of one definition: they log call / ret and follow fixed, payload-controlled rules"""
+        d = self.defs[name]
+        info = self.def_info[name]
+        out = []
+        allf = list(info["fields"]) + [f for v in info["variants"] for f in v["fields"]]
+        for f in allf:
+            it = self.rust_ty[f["node"]]
+            wt = f["rust_field_ty"]
+            if f["frm"] == "from":
+                arg = "&%s" % it if f["fromref"] else it
+                out.append("fn %s(v: %s) -> %s {" % (f["fn"], arg, wt))
+                out.append('    log_call("%s", vec![v.to_j()]);' % f["fn"])
+                out.append("    let r = W(v%s);" % (".clone()" if f["fromref"] else ""))
+                out.append('    log_ret_ok("%s", r.to_j());' % f["fn"])
+                out.append("    r")
+                out.append("}")
+            if f["frm"] == "try":
+                arg = "&%s" % it if f["fromref"] else it
+                out.append("fn %s(v: %s) -> Result<%s, FnErr> {" % (f["fn"], arg, wt))
+                out.append('    log_call("%s", vec![v.to_j()]);' % f["fn"])
+                out.append("    if designated(&v.to_j()) {")
+                out.append('        let e = new_fn_err("%s");' % f["fn"])
+                out.append('        log_ret_err("%s", e.id);' % f["fn"])
+                out.append("        return Err(e);")
+                out.append("    }")
+                out.append("    let r = W(v%s);" % (".clone()" if f["fromref"] else ""))
+                out.append('    log_ret_ok("%s", r.to_j());' % f["fn"])
+                out.append("    Ok(r)")
+                out.append("}")
+            if f["mapfn"]:
+                out.append("fn %s(v: %s) -> %s {" % (f["mapfn"], wt, wt))
+                out.append('    log_call("%s", vec![v.to_j()]);' % f["mapfn"])
+                out.append("    let r = bump(v);")
+                out.append('    log_ret_ok("%s", r.to_j());' % f["mapfn"])
+                out.append("    r")
+                out.append("}")
+            if f["missfn"]:
+                out.append("fn %s(field: &str, loc: deserr::ValuePointerRef) -> FnErr {" % f["missfn"])
+                out.append('    log_call("%s", vec![str_rv(field), loc_rv(loc)]);' % f["missfn"])
+                out.append('    let e = new_fn_err("%s");' % f["missfn"])
+                out.append('    log_ret_err("%s", e.id);' % f["missfn"])
+                out.append("    e")
+                out.append("}")
+        if info["denyfn"]:
+            out.append("fn %s(key: &str, accepted: &[&str], loc: deserr::ValuePointerRef) -> FnErr {" % info["denyfn"])
+            out.append('    log_call("%s", vec![str_rv(key), strs_rv(accepted), loc_rv(loc)]);' % info["denyfn"])
+            out.append('    let e = new_fn_err("%s");' % info["denyfn"])
+            out.append('    log_ret_err("%s", e.id);' % info["denyfn"])
+            out.append("    e")
+            out.append("}")
+        if info["vfn"]:
+            out.append("fn %s(v: %s, loc: deserr::ValuePointerRef) -> Result<%s, FnErr> {" % (info["vfn"], name, name))
+            out.append('    log_call("%s", vec![v.to_j(), loc_rv(loc)]);' % info["vfn"])
+            out.append("    if designated(&v.to_j()) {")
+            out.append('        let e = new_fn_err("%s");' % info["vfn"])
+            out.append('        log_ret_err("%s", e.id);' % info["vfn"])
+            out.append("        return Err(e);")
+            out.append("    }")
+            out.append('    log_ret_ok("%s", v.to_j());' % info["vfn"])
+            out.append("    Ok(v)")
+            out.append("}")
+        if info["cfn"]:
+            it = self.rust_ty[info["kids"][0]]
+            arg = "&%s" % it if info["cref"] else it
+            ret = name if info["cfrom"] == "from" else "Result<%s, FnErr>" % name
+            out.append("fn %s(v: %s) -> %s {" % (info["cfn"], arg, ret))
+            out.append('    log_call("%s", vec![v.to_j()]);' % info["cfn"])
+            if info["cfrom"] == "try":
+                out.append("    if designated(&v.to_j()) {")
+                out.append('        let e = new_fn_err("%s");' % info["cfn"])
+                out.append('        log_ret_err("%s", e.id);' % info["cfn"])
+                out.append("        return Err(e);")
+                out.append("    }")
+            out.append("    let r = %s { v: W(v%s) };" % (name, ".clone()" if info["cref"] else ""))
+            out.append('    log_ret_ok("%s", r.to_j());' % info["cfn"])
+            out.append("    %s" % ("r" if info["cfrom"] == "from" else "Ok(r)"))
+            out.append("}")
+        return out
 
     def emit_fields(self, finfo, fsrc, indent, pub):
         lines = []
         for f, s in zip(finfo, fsrc):
-            lines.append("%s%s%s%s: %s," % (indent, self.field_attrs(f, s), "pub " if pub else "", s["ident"], self.rust_ty[f["node"]]))
+            lines.append("%s%s%s%s: %s," % (indent, self.field_attrs(f, s), "pub " if pub else "", s["ident"], f["rust_field_ty"]))
         return lines
 
     def emit_def(self, name):
@@ -182,9 +281,27 @@ class Gen:
         if d["deny"] == "default": cattrs.append("deny_unknown_fields")
         if d.get("tag"): cattrs.append('tag = "%s"' % d["tag"])
         if d["error"]: cattrs.append("error = %s" % d["error"])
-        out = ["#[derive(deserr::Deserr, Debug)]"]
+        if d["deny"] == "fn": cattrs.append("deny_unknown_fields = %s" % info["denyfn"])
+        if d["validate"]: cattrs.append("validate = %s -> FnErr" % info["vfn"])
+        if info["cfn"]:
+            it = self.rust_ty[info["kids"][0]]
+            if info["cfrom"] == "from": cattrs.append("from(%s%s) = %s" % ("&" if info["cref"] else "", it, info["cfn"]))
+            else: cattrs.append("try_from(%s%s) = %s -> FnErr" % ("&" if info["cref"] else "", it, info["cfn"]))
+        out = self.emit_fns(name) + ["#[derive(deserr::Deserr, Debug)]"]
         if cattrs: out.append("#[deserr(%s)]" % ", ".join(cattrs))
         out.append("#[allow(non_snake_case, non_camel_case_types, dead_code)]")
+        if d["kind"] == "struct" and info["cfn"]:
+            it = self.rust_ty[info["kids"][0]]
+            out.append("pub struct %s { pub v: W<%d, %s> }" % (name, info["kids"][0], it))
+            out.append("impl ToJ for %s {" % name)
+            out.append("    fn to_j(&self) -> J {")
+            out.append('        let mut r = rv("struct");')
+            out.append('        r["name"] = json!("%s");' % name)
+            out.append('        r["e"] = json!([{"k": "v", "v": self.v.to_j()}]);')
+            out.append("        r")
+            out.append("    }")
+            out.append("}")
+            return out
         if d["kind"] == "struct":
             out.append("pub struct %s {" % name)
             out += self.emit_fields(info["fields"], d["fields"], "    ", True)
@@ -230,13 +347,28 @@ class Gen:
             out.append("}")
         return out
 
+    def fixed_error(self, ty):
+        """does the type (transitively) contain a derived type that fixes its error type?"""
+        k = ty[0]
+        if k == "ref":
+            d = self.defs[ty[1]]
+            if d["error"]:
+                return True
+            fs = list(d.get("fields") or []) + [f for v in d.get("variants", []) for f in (v["fields"] or [])]
+            return any(self.fixed_error(f["ty"]) for f in fs)
+        if k in ("vec", "hset", "bset", "opt", "box"): return self.fixed_error(ty[1])
+        if k == "arr": return self.fixed_error(ty[1])
+        if k == "tup": return any(self.fixed_error(t) for t in ty[1])
+        if k in ("hmap", "bmap"): return self.fixed_error(ty[2])
+        return False
+
     def run(self):
         for e in self.entries:
             self.entry_ids.append(self.occ(e))
         rs = ["// @generated by tools/gen_catalogue.py - do not edit",
               "#![allow(clippy::all)]",
-              "use crate::rt::{rv, ToJ, P};",
-              "use crate::core::{go, Done};",
+              "use crate::rt::{bump, designated, loc_rv, log_call, log_ret_err, log_ret_ok, new_fn_err, rv, str_rv, strs_rv, FnErr, RecErr, RecErr2, ToJ, P, W};",
+              "use crate::core::{go, go_rec, Done};",
               "use crate::ov::OV;",
               "use serde_json::{json, Value as J};",
               ""]
@@ -246,8 +378,8 @@ class Gen:
                 rs.append("")
         rs.append("pub fn run_entry(id: u32, src: &str, etype: &str, payload: &OV) -> Done {")
         rs.append("    match id {")
-        for nid in self.entry_ids:
-            rs.append("        %d => go::<%s>(src, etype, payload)," % (nid, self.rust_ty[nid]))
+        for nid, ety in zip(self.entry_ids, self.entries):
+            rs.append("        %d => %s::<%s>(src, etype, payload)," % (nid, "go_rec" if self.fixed_error(ety) else "go", self.rust_ty[nid]))
         rs.append('        _ => panic!("unknown catalogue entry {id}"),')
         rs.append("    }")
         rs.append("}")
